@@ -58,7 +58,7 @@ def detect(sid, props, tier='quick'):
         res = {}
         for p in props:
             t0 = time.time()
-            rc, o = sh('VERIF_REPO=%s python3 run/vp.py check %s --tier %s' % (wt, p, tier), cwd=VERIF, timeout=7200)
+            rc, o = sh('VERIF_EVIDENCE_DIR=/tmp/seed_evidence VERIF_REPO=%s python3 run/vp.py check %s --tier %s' % (wt, p, tier), cwd=VERIF, timeout=7200)
             vio = [l for l in o.splitlines() if l.startswith('VIOLATION')]
             failed = [l.strip() for l in o.splitlines() if 'failed obligation' in l]
             und = [l.strip() for l in o.splitlines() if l.startswith('UNDECIDED')]
@@ -78,7 +78,7 @@ def detect(sid, props, tier='quick'):
     try:
         for p in props:
             t0 = time.time()
-            rc, o = sh('python3 run/vp.py check %s --tier %s' % (p, tier), cwd=VERIF, timeout=7200)
+            rc, o = sh('VERIF_EVIDENCE_DIR=/tmp/seed_evidence python3 run/vp.py check %s --tier %s' % (p, tier), cwd=VERIF, timeout=7200)
             vio = [l for l in o.splitlines() if l.startswith('VIOLATION')]
             failed = [l.strip() for l in o.splitlines() if 'failed obligation' in l]
             res[p] = {'exit': rc, 'violations': vio[:10], 'failed_obligations': failed[:10], 'wall_s': round(time.time() - t0)}
